@@ -13,25 +13,25 @@ package satisfaction
 //@ pred saAccepts(l model.BiasListener, x model.MethodParameters, id string) = typeis(x, satisfactionAddedCriterion)
 
 //@ func (*SatisfactionParameters).with
-//@   property C07 C01 C09 C13 C15 C18
+//@   property C07 C01 C09 C13 C15 C18 C19 C20
 //@   nopanic
 //@   ensures [replaced] result.Params == params && result.Function == s.Function && result.RandomSeed == s.RandomSeed
 //@             && result.CurrentChoice == s.CurrentChoice && result.RandomAlternativesOrdering == s.RandomAlternativesOrdering
 
 //@ func (*SatisfactionBiasListener).OnCriteriaRemoved
-//@   property C07 C15
+//@   property C07 C15 C01 C09 C20
 //@   refines model.BiasListener.OnCriteriaRemoved with validParams=saValid, coversId=saCovers
 //@ func (*SatisfactionBiasListener).OnCriterionAdded
-//@   property C07 C18
+//@   property C07 C18 C01 C09 C19 C20
 //@   refines model.BiasListener.OnCriterionAdded with validParams=saValid, coversId=saCovers, accepts=saAccepts, acceptsAny=saAcceptsAny
 //@ func (*SatisfactionBiasListener).Merge
-//@   property C07 C18
+//@   property C07 C18 C01 C09 C19 C20
 //@   refines model.BiasListener.Merge with validParams=saValid, coversId=saCovers, accepts=saAccepts, acceptsAny=saAcceptsAny
 
 // ---- the heuristic's building blocks (C13)
 
 //@ func isGoodEnough
-//@   property C13 C01 C09 C14
+//@   property C13 C01 C09 C14 C20
 //@   ensures [meets_every_threshold] result <==> forall k int :: 0 <= k && k < len(*thresholds) ==> model.signed(alternative, (*thresholds)[k].Criterion) >= model.mult((*thresholds)[k].Criterion) * (*thresholds)[k].Weight
 //@   loop 1 invariant [so_far] forall k int :: 0 <= k && k < iter ==> model.signed(alternative, (*thresholds)[k].Criterion) >= model.mult((*thresholds)[k].Criterion) * (*thresholds)[k].Weight
 
@@ -40,7 +40,7 @@ package satisfaction
 //@   && r.Evaluation.(SatisfactionEvaluation).ThresholdsIndex == level && r.Evaluation.(SatisfactionEvaluation).SatisfiedThresholds == thresholds
 
 //@ func updateResult
-//@   property C13 C01 C09 C14
+//@   property C13 C01 C09 C14 C20
 //@   requires 0 <= resultInsertIndex && resultInsertIndex < len(result) && resultInsertIndex < len(resultIds)
 //@   assigns result, resultIds
 //@   ensures [slot_written] acceptedAt(result[resultInsertIndex], alternative, alternativeValue, *thresholds) && resultIds[resultInsertIndex] == alternative.Id
@@ -50,7 +50,7 @@ package satisfaction
 
 // the fallback thresholds: the worst end of every criterion's range (declared range first, else observed over all known alternatives)
 //@ func weightsSupplier$1
-//@   property C13 C01 C09 C14
+//@   property C13 C01 C09 C14 C20
 //@   ensures [worst_of_declared_range] fresh(result) && forall k int :: 0 <= k && k < len(dmp.Criteria) && dmp.Criteria[k].ValuesRange != nil
 //@             && (forall j int :: k < j && j < len(dmp.Criteria) ==> dmp.Criteria[j].Id != dmp.Criteria[k].Id) ==>
 //@             dmp.Criteria[k].Id in result && result[dmp.Criteria[k].Id] == (dmp.Criteria[k].Type == model.Cost ? dmp.Criteria[k].ValuesRange.Max : dmp.Criteria[k].ValuesRange.Min)
@@ -73,7 +73,7 @@ package satisfaction
 //@      (x.Id == current.Id && y.Id != current.Id) || exists i int, j int :: 0 <= i && i < j && j < len(considered) && considered[i].Id == x.Id && considered[j].Id == y.Id
 
 //@ func checkWithinSatisfactionLevels
-//@   property C13 C01 C09 C14
+//@   property C13 C01 C09 C14 C20
 //@   requires [distinct_search_order] distinctIds(considered) && forall j int :: 0 <= j && j < len(considered) ==> considered[j].Id != current.Id
 //@   ensures [every_alternative_once] fresh(result1) && fresh(result2) && len(result1) == 1 + len(considered) && len(result2) == 1 + len(considered)
 //@             && 0 <= result3 && result3 + len(result0) == 1 + len(considered) && distinctIds(result0)
@@ -86,6 +86,7 @@ package satisfaction
 //@   ensures [examined_in_search_order] (forall a int, b int :: 0 <= a && a < b && b < len(result0) ==> before(result0[a], result0[b], current, considered))
 //@             && forall k int, m int :: 0 <= k && k < m && m < result3 && result1[k].Evaluation.(SatisfactionEvaluation).ThresholdsIndex == result1[m].Evaluation.(SatisfactionEvaluation).ThresholdsIndex
 //@                  ==> before(result1[k].Alternative, result1[m].Alternative, current, considered)
+//@   returnhint [levels_are_tried_until_nobody_is_left_or_the_series_ends] len(leftToChoice) == 0 || !last_HasNext
 //@   loop 1 invariant [ctx] fresh(result) && fresh(resultIds) && len(result) == 1 + len(considered) && len(resultIds) == 1 + len(considered) && thresholdIndex >= -1
 //@   loop 1 invariant [count] 0 <= resultInsertIndex && resultInsertIndex + len(leftToChoice) == 1 + len(considered) && distinctIds(leftToChoice)
 //@   loop 1 invariant [accepted] forall k int :: 0 <= k && k < resultInsertIndex ==> typeis(result[k].Evaluation, SatisfactionEvaluation) && resultIds[k] == result[k].Alternative.Id
@@ -119,7 +120,7 @@ package satisfaction
 // the alternatives that met no level: appended after the accepted ones, in order, with the index after the last level and
 // the fallback thresholds
 //@ func fillRemainingAlternatives
-//@   property C13 C01 C09 C14
+//@   property C13 C01 C09 C14 C20
 //@   fnparam lowestThresholdSup pure
 //@   requires [fills_exactly_the_open_slots] 0 <= resultInsertIndex && resultInsertIndex + len(leftToChoice) == len(result) && len(resultIds) == len(result)
 //@   assigns result, resultIds
@@ -148,22 +149,22 @@ package satisfaction
 //@ spec saCurrent(p limited_rationality.HeuristicParams) string = p.(*SatisfactionParameters).CurrentChoice
 //@ spec saRandom(p limited_rationality.HeuristicParams) bool = p.(*SatisfactionParameters).RandomAlternativesOrdering
 //@ func (*SatisfactionParameters).GetCurrentChoice
-//@   property C13 C01 C09
+//@   property C13 C01 C09 C11 C12 C14 C20
 //@   nopanic
 //@   refines limited_rationality.HeuristicParams.GetCurrentChoice with currentChoiceOf=saCurrent
 //@   ensures result == s.CurrentChoice
 //@ func (*SatisfactionParameters).IsRandomAlternativesOrdering
-//@   property C13 C01 C09
+//@   property C13 C01 C09 C11 C12 C14 C20
 //@   nopanic
 //@   refines limited_rationality.HeuristicParams.IsRandomAlternativesOrdering with randomOrderOf=saRandom
 //@   ensures result == s.RandomAlternativesOrdering
 //@ func (*SatisfactionParameters).GetRandomSeed
-//@   property C13 C01 C14 C09
+//@   property C13 C01 C14 C09 C20
 //@   nopanic
 //@   ensures result == s.RandomSeed
 
 //@ func (*Satisfaction).Evaluate
-//@   property C13 C14 C01 C09
+//@   property C13 C14 C01 C09 C20
 //@   fnparam .generator pure
 //@   requires [parameters] typeis(dmp.MethodParameters, SatisfactionParameters)
 //@   requires [distinct_alternatives] model.distinctAltIds(dmp.ConsideredAlternatives)
@@ -209,20 +210,20 @@ package satisfaction
 
 // ---- registered names (what a request must say to select this object; what error messages list)
 //@ func (*SatisfactionBiasListener).Identifier
-//@   property C07 C20
+//@   property C07 C20 C01 C03 C04 C05 C06 C08 C09 C11 C12 C13 C14 C15 C16 C17 C18 C19
 //@   nopanic
 //@   ensures [name] result == "satisfactionHeuristic"
 
 // ---- registered names (what a request must say to select this object; what error messages list)
 //@ func (*Satisfaction).Identifier
-//@   property C01 C09 C13 C20
+//@   property C01 C09 C13 C20 C03 C04 C05 C06 C07 C08 C11 C12 C14 C15 C16 C17 C18 C19
 //@   nopanic
 //@   ensures [name] result == "satisfactionHeuristic"
 
 // ---- importance of a criterion for this method (C15): its values summed over the considered alternatives
 //@ spec saImportance(l model.BiasListener, p *model.DecisionMakingParams, id string) real = model.cumw(p.ConsideredAlternatives, id, len(p.ConsideredAlternatives), model.WeightIdentity)
 //@ func (*SatisfactionBiasListener).RankCriteriaAscending
-//@   property C15 C07 C16 C18 C19
+//@   property C15 C07 C16 C18 C19 C01 C09 C20
 //@   refines model.BiasListener.RankCriteriaAscending with validParams=saValid, coversId=saCovers, imp=saImportance
 //@   requires [distinct] model.distinctCriteria(params.Criteria)
 //@   ensures [every_criterion_once_ascending] result != nil && fresh(result) && fresh(*result) && len(*result) == len(params.Criteria)
@@ -232,7 +233,7 @@ package satisfaction
 //@             && (*result)[k].Weight == old(model.cumw(params.ConsideredAlternatives, params.Criteria[j].Id, len(params.ConsideredAlternatives), model.WeightIdentity))
 
 //@ func (*SatisfactionBiasListener).getMethodParams
-//@   property C07 C13 C15 C18
+//@   property C07 C13 C15 C18 C01 C09 C19 C20
 //@   ensures [listener_of_the_requests_level_source] pParams.Function in a.satisfactionLevelsUpdateListeners.Listeners && result0 == a.satisfactionLevelsUpdateListeners.Listeners[pParams.Function]
 
 // the parameter schema listed for this method is that of its parameter struct
